@@ -18,10 +18,13 @@ Definition CL_SHAPE : Z := 4.      (* malformed observation list for the operati
 
 Record mst := {
   m_n : nat;                         (* objects handed out so far *)
-  m_store : option (list cell)       (* the stored data as last read back (None = nil) *)
+  m_store : option (list cell);      (* the stored data as last read back (None = nil) *)
+  m_known : bool;                    (* no update that may legitimately change the store ran unobserved since *)
+  m_np : bool;                       (* an update without persistence ran unobserved since the last read-back *)
+  m_fl : bool                        (* an update reported as failed ran unobserved since the last read-back *)
 }.
 
-Definition minit : mst := {| m_n := 0; m_store := None |}.
+Definition minit : mst := {| m_n := 0; m_store := None; m_known := true; m_np := false; m_fl := false |}.
 
 Definition eqb_store (a b : option (list cell)) : bool :=
   match a, b with
@@ -52,26 +55,40 @@ Definition mon (m : mst) (o : op) (out : list obs) : mst * verdict :=
   match o with
   | Init _ _ _ _ =>
       (minit, match out with [] => [] | _ => [CL_SHAPE] end)
-  | Update remote persist wire u =>
-      match res_of out, store_of out with
-      | [c], [sv] =>
+  | Update remote persist rb wire u =>
+      (* may this update change the store?  only a persisting one that is not reported as failed *)
+      match res_of out, store_of out, rb with
+      | [c], [sv], true =>
           let same := eqb_store sv (m_store m) in
-          ({| m_n := m_n m + outs_of out; m_store := sv |},
+          let bad := m_known m && (negb persist || N.eqb c 1) && negb same in
+          ({| m_n := m_n m + outs_of out; m_store := sv; m_known := true; m_np := false; m_fl := false |},
            snap_verdict m out ++
-           (if negb persist && negb same then [CL_NOPERSIST] else []) ++
-           (if N.eqb c 1 && negb same then [CL_FAILED] else []))
-      | _, _ => (m, [CL_SHAPE])
+           (if bad && (negb persist || m_np m) then [CL_NOPERSIST] else []) ++
+           (if bad && (N.eqb c 1 || m_fl m) then [CL_FAILED] else []))
+      | [c], [], false =>
+          (* not read back: the judgement waits for the next read-back *)
+          (if negb persist || N.eqb c 1
+           then {| m_n := m_n m + outs_of out; m_store := m_store m; m_known := m_known m;
+                   m_np := m_np m || negb persist; m_fl := m_fl m || N.eqb c 1 |}
+           else {| m_n := m_n m + outs_of out; m_store := m_store m; m_known := false; m_np := false; m_fl := false |},
+           snap_verdict m out)
+      | _, _, _ => (m, [CL_SHAPE])
       end
   | Snapshot =>
       match res_of out, store_of out with
-      | [], [sv] => ({| m_n := m_n m + outs_of out; m_store := sv |}, snap_verdict m out)
+      | [], [sv] =>
+          let bad := m_known m && negb (eqb_store sv (m_store m)) in
+          ({| m_n := m_n m + outs_of out; m_store := sv; m_known := true; m_np := false; m_fl := false |},
+           snap_verdict m out ++
+           (if bad && m_np m then [CL_NOPERSIST] else []) ++
+           (if bad && m_fl m then [CL_FAILED] else []))
       | _, _ => (m, [CL_SHAPE])
       end
   | Keep =>
       (* one more object in the application's hands; nothing else may be reported but changes *)
       match out with
       | Kept :: r =>
-          ({| m_n := S (m_n m); m_store := m_store m |},
+          ({| m_n := S (m_n m); m_store := m_store m; m_known := m_known m; m_np := m_np m; m_fl := m_fl m |},
            snap_verdict m r ++ (if Nat.eqb (length (changed_of r)) (length r) then [] else [CL_SHAPE]))
       | _ => (m, [CL_SHAPE])
       end
